@@ -16,9 +16,11 @@ CLAIMED = {
  "C10": ("exploration", "4.C10", "FindMissingBlobs request lists of length 0..300 (around the internal batch of 20), duplicates, size-mismatched and empty digests, all partitions into local / backend-only / absent / oversize-in-backend, without a backend, with a harness proxy and with the real httpproxy; the scheduler permutes the completion order of the backend lookups and a second client uploads other keys meanwhile. Answer must be the request filtered to the absent digests, order and duplicates preserved."),
  "C11": ("exploration", "4.C11", "Valid ActionResults and one-invalid-field variants (sampled kinds, not exhaustive) uploaded via gRPC and HTTP (proto/JSON/zstd); rejected uploads must leave the key unchanged, hits are compared with the upload modulo the documented changes (worker, inlining, de-inlined bytes in the CAS), JSON and proto views must agree, whatever is stored must parse and validate."),
  "C12": ("fault_enumeration", "4.C12", "Front end with the real httpproxy over a simulated transport/object store (b1) or a harness cache.Proxy (b0); every operation may carry one backend fault (error, 404 with/without body, 5xx, disconnect or clean short stream at header/table/chunk byte offsets, missing/wrong size metadata, oversize, backend down); judged: read-through, write-through (decoded by the independent cas.v2 reader), no wrong hit, no poisoned local entry, no leaked response body/fd/goroutine/reservation. The real grpcproxy is not yet driven (stated in DESIGN.md)."),
+ "C14": ("exploration", "4.C14", "Generated hostile requests (malformed resource names, digests, sizes, offsets, nil sub-messages, message scripts that end early / send data after finish / keep sending undecodable zstd, client aborts, abandoned reads) and ill-formed stored blobs interpreted as Directory/Tree/ActionResult; after every request: no panic, error status for malformed input, handler returned (otherwise the scheduler reaches 'nothing runnable'), no goroutine, descriptor, reservation or stray file left. Generation inside a simulator, not coverage-guided fuzzing."),
  "C15": ("exploration", "4.C15", "The same hash used as key in cas/, ac/ and raw/ (validation toggled per run) with all orders of writes, overwrites, failed stores and evictions against three independent model maps; instance-name mangling on/off over HTTP path prefix and gRPC instance_name with nested, ac/cas/blobs-containing and unicode instance names."),
  "C16": ("exploration", "4.C16", "ByteStream.Write message scripts: all chunkings (one-byte, empty messages, finish_write on last / extra / absent), identity and zstd, blob present or absent beforehand, instance prefixes and trailing metadata, protocol violations (non-zero first offset, name change, too many/few bytes, unparsable name); the scheduler explores receive goroutine vs Put goroutine vs handler; QueryWriteStatus before and after."),
  "C17": ("exploration", "4.C17", "One client with the background remover starved for scheduler-chosen stretches, hard limits max_size+{0..max/2}, all write paths; admission judged exactly against accounted + independently measured deletion backlog (bytes of files no longer indexed) + size; refusals must be 507/RESOURCE_EXHAUSTED, change nothing and succeed on retry after the remover caught up; reads keep being served; without the option no such refusal."),
+ "C20": ("exploration", "4.C20", "(a) every cas.v2 file any simulated run leaves at quiescence is parsed by an independent reader of the published format (two zstd decoders); (b) directories written by the independent writer with chunk sizes 4 KiB..4 MiB, several encoder levels, both encoders, identity-compressed headers and arbitrary alphanumeric suffixes are read back on every path and offset; (c) names recorded at the simulated backend and produced by the S3/Azure key functions (pure-function spot check) equal the harness's restatement and are injective."),
  "C18": ("exploration", "4.C18", "Uploads of limit-1/limit/limit+1/far-above sizes through every write path under per-run random max_blob_size; refusals must be client errors that store nothing, the limit itself is accepted."),
 }
 
